@@ -668,6 +668,10 @@ def answer (line : String) : String :=
             match x' with
             | some x => s!"ok eq={b01 (x == y)} cmp={ordStr (cmpLoc x y)} he={b01 (x == y)} se={b01 (x.display == y.display)}"
             | none => "ok reparsefail"
+          else if k == 10 then
+            -- route 5 with an extra `true` in every keyword / tfield that is set again
+            let y := runState Gen.tables x (route10Ops x)
+            s!"ok eq={b01 (x == y)} cmp={ordStr (cmpLoc x y)} he={b01 (x == y)} se={b01 (x.display == y.display)}"
           else
           match routeValue Gen.tables x k with
           | some y => s!"ok eq={b01 (x == y)} cmp={ordStr (cmpLoc x y)} he={b01 (x == y)} se={b01 (x.display == y.display)}"
